@@ -4,10 +4,15 @@
 
 string oid = "?";
 object keep;
+mixed *keepa = ({ 0 });
+mapping keepm = ([ ]);
 
 string my_oid () { return oid; }
-void set_keep (object o) { keep = o; }
+// the same reference in a global variable, an array and a mapping (scrub sites F_GLOBAL / F_INDEX)
+void set_keep (object o) { keep = o; keepa = ({ o }); keepm = ([ "k" : o ]); }
 object get_keep () { return keep; }
+object get_keepa () { return keepa[0]; }
+object get_keepm () { return keepm["k"]; }
 
 #include "/c08/ops.h"
 
@@ -42,6 +47,15 @@ int move_or_destruct (object dest) {
   return 0;
 }
 
+int act (string arg) {
+  VL ("hb " + oid + " act " + OID (this_player ()));
+  run ("act", 0);
+  VL ("he " + oid + " act");
+  return 1;
+}
+
+void x_aa (string verb) { add_action ("act", verb); }
+int x_cmd (string verb) { return command (verb); }
 void x_mv (object d) { move_object (d); }
 void x_ec () { enable_commands (); }
 void x_dc () { disable_commands (); }
